@@ -312,6 +312,11 @@ func runC14(c *fw.Case) {
 	}
 	c14CheckIter(c, it, model, withTomb, name, trace)
 	for ks, e := range model {
+		// membership through the table's bloom filter: every record that was flushed must be a member
+		inTable := !e.tomb || withTomb
+		if has, err := rd.Contains([]byte(ks)); err != nil || has != inTable {
+			c.Violate("memstore/flush-contains", "%s: Contains(%x)=(%v,%v) on the flushed table, want %v", name, ks, has, err, inTable)
+		}
 		v, err := rd.Get([]byte(ks))
 		switch {
 		case e.tomb && !withTomb:
